@@ -77,16 +77,20 @@ def emit_all(emit) -> None:
         "`.core` and in `.shell`, squared distance of every point from `.center` in 1e-6 units",
     )
 
-    normals = ViewpointReorienter([0.0, -10.0, 0.0], [0.0, 0.0, 10.0])._get_normals(np.zeros(3))
-    emit(
-        "c18ViewOrder",
-        "List (String × List Int)",
-        [(k, [int(round(float(x))) for x in v]) for k, v in normals.items()],
-        "ViewpointReorienter._get_normals for observer (0,-10,0), ceiling (0,0,10), centre 0: keys in dict order with "
-        "the (unit) direction of each",
-    )
+    guard = getattr(emit, "guard", lambda fn, *a, **k: fn(*a, **k))
 
-    _emit_source_tie(emit)
+    def view_order():
+        normals = ViewpointReorienter([0.0, -10.0, 0.0], [0.0, 0.0, 10.0])._get_normals(np.zeros(3))
+        emit(
+            "c18ViewOrder",
+            "List (String × List Int)",
+            [(k, [int(round(float(x))) for x in v]) for k, v in normals.items()],
+            "ViewpointReorienter._get_normals for observer (0,-10,0), ceiling (0,0,10), centre 0: keys in dict order with "
+            "the (unit) direction of each",
+        )
+
+    guard(view_order)  # only Props/C18 names it
+    _emit_source_tie(emit, guard)
 
 
 # ---------------------------------------------------------------------------------------------------------------
@@ -110,91 +114,198 @@ def _functions(module):
     return out
 
 
-def _emit_source_tie(emit) -> None:
+def _normalised(fn):
+    """a copy of a FunctionDef with docstrings and annotations dropped and every parameter / local (not `self`, `cls`)
+    renamed v0, v1, … in order of first appearance, so that only statement-level edits change the pinned text"""
+    import ast
+    import copy
+
+    fn = copy.deepcopy(fn)
+    names = []
+
+    def add(n):
+        if n not in names and n not in ("self", "cls"):
+            names.append(n)
+
+    found = []  # ast.walk is breadth first: order by position instead
+    for node in ast.walk(fn):
+        if isinstance(node, ast.arg):
+            found.append((node.lineno, node.col_offset, node.arg))
+        elif isinstance(node, ast.Name) and isinstance(node.ctx, ast.Store):
+            found.append((node.lineno, node.col_offset, node.id))
+        elif isinstance(node, ast.ExceptHandler) and node.name:
+            found.append((node.lineno, node.col_offset, node.name))
+    for _, _, n in sorted(found):
+        add(n)
+    new = {n: f"v{k}" for k, n in enumerate(names)}
+
+    class Rename(ast.NodeTransformer):
+        def visit_Name(self, n):
+            n.id = new.get(n.id, n.id)
+            return n
+
+        def visit_arg(self, n):
+            n.arg = new.get(n.arg, n.arg)
+            n.annotation = None
+            return n
+
+        def visit_FunctionDef(self, n):
+            n.returns = None
+            self.generic_visit(n)
+            if n.body and isinstance(n.body[0], ast.Expr) and isinstance(getattr(n.body[0], "value", None), ast.Constant) \
+                    and isinstance(n.body[0].value.value, str):
+                n.body = n.body[1:] or [ast.Pass()]
+            return n
+
+        def visit_AnnAssign(self, n):
+            self.generic_visit(n)
+            if n.value is None:
+                return None
+            return ast.copy_location(ast.Assign(targets=[n.target], value=n.value), n)
+
+    fn = Rename().visit(fn)
+    ast.fix_missing_locations(fn)
+    return fn
+
+
+def _slices(node):
+    import ast
+
+    return [s for s in ast.walk(node) if isinstance(s, ast.Subscript) and isinstance(s.slice, ast.Slice)]
+
+
+def _emit_source_tie(emit, guard) -> None:
+    """every group is independent and runs under `emit.guard`: a group that cannot read the source any more loses its own
+    tables only (none of them is named by a Model file)"""
     import ast
 
     from classy_blocks.modify.find import finder, geometric, shape
     from classy_blocks.modify.reorient import viewpoint
     from classy_blocks.util import functions
 
+    def sources():
+        vp = _functions(viewpoint)
+        srcs = [("viewpoint", vp), ("finder", _functions(finder)), ("geometric", _functions(geometric)),
+                ("shape", _functions(shape))]
+        fn = _functions(functions)
+        srcs.append(("functions", {k: fn[k] for k in ("is_point_on_plane", "point_to_plane_distance") if k in fn}))
+        return srcs
+
+    def pos(n):
+        return (n.lineno, n.col_offset)
+
+    def text_pins():
+        # every comparison and every slice of the anchored functions as normalised text (locals v0, v1, …; annotations,
+        # docstrings, comments, blank lines do not matter), sorted by function and position
+        compares, slices = [], []
+        for mod, funcs in sources():
+            for name, node in funcs.items():
+                node = ast.parse(ast.unparse(_normalised(node))).body[0]  # positions of the normalised text
+                for sub in ast.walk(node):
+                    if isinstance(sub, ast.Compare):
+                        compares.append((f"{mod}.{name}", pos(sub), ast.unparse(sub)))
+                for sub in _slices(node):
+                    slices.append((f"{mod}.{name}", pos(sub), ast.unparse(sub)))
+        emit("c18Compares", "List (String × String)", [(c[0], c[2]) for c in sorted(compares)],
+             "every comparison (ast.Compare) of viewpoint.py, finder.py, geometric.py, shape.py and functions.is_point_on_plane / "
+             "point_to_plane_distance: (function, normalised source text: parameters and locals renamed v0, v1, …)")
+        emit("c18Slices", "List (String × String)", [(c[0], c[2]) for c in sorted(slices)],
+             "every slice of the same functions: (function, normalised source text)")
+
     vp = _functions(viewpoint)
-    srcs = [("viewpoint", vp), ("finder", _functions(finder)), ("geometric", _functions(geometric)), ("shape", _functions(shape))]
-    fn = _functions(functions)
-    srcs.append(("functions", {k: fn[k] for k in ("is_point_on_plane", "point_to_plane_distance") if k in fn}))
 
-    # every comparison and every slice of the anchored functions, as source text, in source order
-    compares, slices = [], []
-    for mod, funcs in srcs:
-        for name, node in funcs.items():
-            for sub in ast.walk(node):
-                if isinstance(sub, ast.Compare):
-                    compares.append((f"{mod}.{name}", sub.lineno, sub.col_offset, ast.unparse(sub)))
-                elif isinstance(sub, ast.Subscript) and isinstance(sub.slice, ast.Slice):
-                    slices.append((f"{mod}.{name}", sub.lineno, sub.col_offset, ast.unparse(sub)))
-    compares.sort(key=lambda c: (c[0].split(".")[0] != "viewpoint", c[1], c[2]))
-    emit(
-        "c18Compares",
-        "List (String × String)",
-        [(c[0], c[3]) for c in sorted(compares, key=lambda c: (c[0], c[1], c[2]))],
-        "every comparison (ast.Compare) of viewpoint.py, finder.py, geometric.py, shape.py and functions.is_point_on_plane / "
-        "point_to_plane_distance: (function, source text), sorted by function and position",
-    )
-    emit(
-        "c18Slices",
-        "List (String × String)",
-        [(c[0], c[3]) for c in sorted(slices, key=lambda c: (c[0], c[1], c[2]))],
-        "every slice of the same functions: (function, source text)",
-    )
+    def recipe():
+        # the list display of eight `X[a].get_common_point(X[b], X[c])` calls, whatever the names
+        for sub in ast.walk(vp["ViewpointReorienter.reorient"]):
+            if isinstance(sub, ast.List) and len(sub.elts) == 8 and all(
+                isinstance(c, ast.Call) and isinstance(c.func, ast.Attribute) and c.func.attr == "get_common_point"
+                for c in sub.elts
+            ):
+                rec = [(c.func.value.slice.value, c.args[0].slice.value, c.args[1].slice.value) for c in sub.elts]
+                emit("c18CornerRecipe", "List (String × String × String)", rec,
+                     "reorient: sorted_points[k] = quads[a].get_common_point(quads[b], quads[c]), in list order")
+                return
+        raise LookupError("corner recipe")
 
-    # ViewpointReorienter.reorient: the eight triple intersections, the handedness test and the swap
-    reorient = vp["ViewpointReorienter.reorient"]
-    recipe, swap, hand = [], [], []
-    for sub in ast.walk(reorient):
-        if isinstance(sub, ast.Assign) and len(sub.targets) == 1 and ast.unparse(sub.targets[0]) == "sorted_points":
-            if isinstance(sub.value, ast.List):  # quads[a].get_common_point(quads[b], quads[c])
-                for call in sub.value.elts:
-                    recipe.append(
-                        (call.func.value.slice.value, call.args[0].slice.value, call.args[1].slice.value)
-                    )
-            elif isinstance(sub.value, ast.ListComp):  # [sorted_points[i] for i in (...)]
-                swap = [e.value for e in sub.value.generators[0].iter.elts]
-        if isinstance(sub, ast.Assign) and ast.unparse(sub.targets[0]) in ("side_x", "side_y", "side_z"):
-            v = sub.value  # sorted_points[a] - sorted_points[b]
-            hand.append((ast.unparse(sub.targets[0]), v.left.slice.value, v.right.slice.value))
-    emit("c18CornerRecipe", "List (String × String × String)", recipe,
-         "reorient: sorted_points[k] = quads[a].get_common_point(quads[b], quads[c]), in list order")
-    emit("c18SwapIdx", "List Nat", swap, "reorient: the index tuple of the handedness swap")
-    emit("c18HandSides", "List (String × Nat × Nat)", hand, "reorient: side_x/y/z = sorted_points[a] - sorted_points[b]")
+    def swap():
+        # `[X[i] for i in (…eight constants…)]`
+        for sub in ast.walk(vp["ViewpointReorienter.reorient"]):
+            if isinstance(sub, ast.ListComp) and isinstance(sub.generators[0].iter, (ast.Tuple, ast.List)):
+                elts = sub.generators[0].iter.elts
+                if len(elts) == 8 and all(isinstance(e, ast.Constant) for e in elts):
+                    emit("c18SwapIdx", "List Nat", [e.value for e in elts], "reorient: the index tuple of the handedness swap")
+                    return
+        raise LookupError("swap tuple")
 
-    # numeric constants of the guards
+    def hand():
+        # the assignments `name = X[a] - X[b]` with constant a, b, in source order (side_x, side_y, side_z)
+        out = []
+        for sub in sorted((n for n in ast.walk(vp["ViewpointReorienter.reorient"]) if isinstance(n, ast.Assign)), key=pos):
+            v = sub.value
+            if isinstance(v, ast.BinOp) and isinstance(v.op, ast.Sub) and all(
+                isinstance(x, ast.Subscript) and isinstance(x.slice, ast.Constant) for x in (v.left, v.right)
+            ):
+                out.append((v.left.slice.value, v.right.slice.value))
+        emit("c18HandSides", "List (Nat × Nat)", out, "reorient: side_x/y/z = sorted_points[a] - sorted_points[b], in source order")
+
     def const_of(func, pred):
-        for sub in ast.walk(func):
-            if isinstance(sub, ast.Compare) and pred(ast.unparse(sub)):
-                c = sub.comparators[0]
-                return type(sub.ops[0]).__name__, c.value
+        for sub in sorted((n for n in ast.walk(func) if isinstance(n, ast.Compare)), key=pos):
+            if pred(sub):
+                return type(sub.ops[0]).__name__, sub.comparators[0].value
         raise LookupError(func.name)
 
-    op, n = const_of(vp["ViewpointReorienter._make_triangles"], lambda s: "hull.simplices" in s)
-    emit("c18HullCount", "String × Nat", (op, n), "_make_triangles: `len(hull.simplices) <op> <n>` raises 'not convex'")
-    op, lim = const_of(vp["Quadrangle.__init__"], lambda s: "np.dot" in s)
-    num, den = Fraction(float(lim)).as_integer_ratio()
-    emit("c18SteepLimit", "String × Nat × Nat", (op, num, den),
-         "Quadrangle.__init__: `np.dot(n0, n1) <op> num/den` raises (the 60 degree limit)")
-    aligned = vp["ViewpointReorienter._get_aligned"]
-    sl = [s for s in ast.walk(aligned) if isinstance(s, ast.Subscript) and isinstance(s.slice, ast.Slice)][0].slice
-    emit("c18AlignedSlice", "Int × Bool", (ast.literal_eval(ast.unparse(sl.lower)), sl.upper is None),
-         "_get_aligned: sorted(...)[lower:] (upper bound absent)")
-    key = [s for s in ast.walk(aligned) if isinstance(s, ast.Lambda)][0]
-    emit("c18AlignedKey", "String", ast.unparse(key.body), "_get_aligned: the sort key")
-    shell = _functions(shape)["RoundSolidFinder.find_shell"]
-    sl = [s for s in ast.walk(shell) if isinstance(s, ast.Subscript) and isinstance(s.slice, ast.Slice)][0].slice
-    emit("c18ShellSlice", "Nat × Nat", (sl.lower.value, sl.upper.value), "find_shell: face.points[lower:upper]")
-    fb = _functions(finder)["FinderBase._find_by_position"]
-    default = [ast.unparse(s.body[0].value) for s in ast.walk(fb) if isinstance(s, ast.If) and "radius is None" in ast.unparse(s.test)]
-    emit("c18DefaultRadius", "List String", default, "_find_by_position: what `radius` becomes when it is None")
-    order = [ast.unparse(k) for s in ast.walk(vp["ViewpointReorienter._get_normals"]) if isinstance(s, ast.Return)
-             for k in s.value.keys]
-    vals = [ast.unparse(v) for s in ast.walk(vp["ViewpointReorienter._get_normals"]) if isinstance(s, ast.Return)
-            for v in s.value.values]
-    emit("c18NormalsDict", "List (String × String)", list(zip([o.strip("'\"") for o in order], vals)),
-         "_get_normals: the returned dict literal, key -> expression, in source order")
+    def is_len_of_attr(node, attr):
+        return (isinstance(node, ast.Call) and ast.unparse(node.func) == "len" and isinstance(node.args[0], ast.Attribute)
+                and node.args[0].attr == attr)
+
+    def hull_count():
+        op, n = const_of(vp["ViewpointReorienter._make_triangles"], lambda c: is_len_of_attr(c.left, "simplices"))
+        emit("c18HullCount", "String × Nat", (op, n), "_make_triangles: `len(hull.simplices) <op> <n>` raises 'not convex'")
+
+    def steep():
+        op, lim = const_of(
+            vp["Quadrangle.__init__"],
+            lambda c: isinstance(c.left, ast.Call) and ast.unparse(c.left.func).endswith("dot")
+            and isinstance(c.comparators[0], ast.Constant),
+        )
+        num, den = Fraction(float(lim)).as_integer_ratio()
+        emit("c18SteepLimit", "String × Nat × Nat", (op, num, den),
+             "Quadrangle.__init__: `np.dot(n0, n1) <op> num/den` raises (the 60 degree limit)")
+
+    def common_point_guard():
+        op, n = const_of(vp["Quadrangle.get_common_point"], lambda c: ast.unparse(c.left).startswith("len("))
+        emit("c18CommonPointGuard", "String × Nat", (op, n),
+             "Quadrangle.get_common_point: `len(common_2) <op> <n>` raises DegenerateGeometryError")
+
+    def aligned():
+        node = _normalised(vp["ViewpointReorienter._get_aligned"])
+        sl = _slices(node)[0].slice
+        emit("c18AlignedSlice", "Int × Bool", (ast.literal_eval(ast.unparse(sl.lower)), sl.upper is None),
+             "_get_aligned: sorted(...)[lower:] (upper bound absent)")
+        key = [s for s in ast.walk(node) if isinstance(s, ast.Lambda)][0]
+        emit("c18AlignedKey", "String", ast.unparse(key.body), "_get_aligned: the sort key (normalised names)")
+
+    def shell_slice():
+        sl = _slices(_functions(shape)["RoundSolidFinder.find_shell"])[0].slice
+        emit("c18ShellSlice", "Nat × Nat", (sl.lower.value, sl.upper.value), "find_shell: face.points[lower:upper]")
+
+    def default_radius():
+        fb = _functions(finder)["FinderBase._find_by_position"]
+        default = [
+            ast.unparse(s.body[0].value)
+            for s in ast.walk(fb)
+            if isinstance(s, ast.If) and isinstance(s.test, ast.Compare) and isinstance(s.test.ops[0], ast.Is)
+            and ast.unparse(s.test.comparators[0]) == "None"
+        ]
+        emit("c18DefaultRadius", "List String", default, "_find_by_position: what `radius` becomes when it is None")
+
+    def normals_dict():
+        node = _normalised(vp["ViewpointReorienter._get_normals"])
+        ret = [s for s in ast.walk(node) if isinstance(s, ast.Return) and isinstance(s.value, ast.Dict)][0].value
+        emit("c18NormalsDict", "List (String × String)",
+             [(k.value, ast.unparse(v)) for k, v in zip(ret.keys, ret.values)],
+             "_get_normals: the returned dict literal, key -> expression (normalised names), in source order")
+
+    for group in (text_pins, recipe, swap, hand, hull_count, steep, common_point_guard, aligned, shell_slice,
+                  default_radius, normals_dict):
+        guard(group)
